@@ -130,9 +130,8 @@ def main():
             elif verdict == "same-verdict":
                 nv += 1
             elif verdict == "refuted":
-                rep.failed_ob(Finding("C13", f"C13/twin/{o['name']}", f"{o['name']}|{' '.join(flags)}", f"{o['name']} [{' '.join(flags)}]: program with macros and its textual expansion differ: {r[2]}",
+                rep.bounded_violation(Finding("C13", f"C13/twin/{o['name']}", f"{o['name']}|{' '.join(flags)}", f"{o['name']} [{' '.join(flags)}]: program with macros and its textual expansion differ: {r[2]}",
                                       replay={"macro_src": t["macro_src"], "inlined_src": t["inlined_src"], "flags": flags}, replayed=True))
-                rep.obligations -= 1
             else:
                 rep.undecided_ob(f"C13/twin/{o['name']}", str(r[2]))
     rep.bounded_count("macro program / inlined twin pairs proved bisimilar", nb)
@@ -144,18 +143,15 @@ def main():
         oid = f"C13/diagnosed/{b['name']}"
         try:
             tv.compile_program(nmfu, b["src"], ["-O1"] + b["args"])
-            rep.failed_ob(Finding("C13", oid, b["name"], f"{b['name']}: a call with an argument of the wrong kind / wrong arity / undefined entity is accepted", replay={"source": b["src"]}, replayed=True))
-            rep.obligations -= 1
+            rep.bounded_violation(Finding("C13", oid, b["name"], f"{b['name']}: a call with an argument of the wrong kind / wrong arity / undefined entity is accepted", replay={"source": b["src"]}, replayed=True))
         except nmfu.NMFUError as e:
             try:
                 str(e)
                 nd += 1
             except Exception as e2:
-                rep.failed_ob(Finding("C13", oid, b["name"] + "|render", f"{b['name']}: diagnostic cannot be rendered ({e2!r})", replay={"source": b["src"]}, replayed=True))
-                rep.obligations -= 1
+                rep.bounded_violation(Finding("C13", oid, b["name"] + "|render", f"{b['name']}: diagnostic cannot be rendered ({e2!r})", replay={"source": b["src"]}, replayed=True))
         except tv.InternalCompilerError as e:
-            rep.failed_ob(Finding("C13", oid, b["name"] + "|internal", f"{b['name']}: not diagnosed, the compiler dies with {e}", replay={"source": b["src"]}, replayed=True))
-            rep.obligations -= 1
+            rep.bounded_violation(Finding("C13", oid, b["name"] + "|internal", f"{b['name']}: not diagnosed, the compiler dies with {e}", replay={"source": b["src"]}, replayed=True))
     rep.bounded_count("ill-typed / wrong-arity calls diagnosed", nd)
     if nb == 0:
         rep.undecided_ob("C13/vacuity", "no twin pair compared")
